@@ -40,10 +40,8 @@ pub trait Read: std::io::Read + Sized + private::Sealed {
 		if written == n_bytes {
 			Ok(())
 		} else {
-			Err(DeError::custom(format_args!(
-				"Expected to skip {} bytes, but only skipped {}",
-				n_bytes, written
-			)))
+			// We reached the end of what there is to read
+			Err(DeError::unexpected_eof())
 		}
 	}
 }
